@@ -415,13 +415,130 @@ fn check_providers(got: &[ContentProvider], key: u8, max_ppk: usize, max_paddr: 
     Ok(())
 }
 
+// ---------------------------------------------------------------------------------------------
+// provider expiry in real time: providers of one key that expire at different moments (the store stamps them itself with
+// `Instant::now() + provider_ttl`, so only waiting can make one of them stale while its neighbour is fresh)
+
+const EXP_TTL_MS: u64 = 150;
+
+#[derive(Debug, Clone, Serialize, Deserialize)]
+pub enum EOp {
+    Put { key: u8, provider: u8, addrs: u8 },
+    Get { key: u8 },
+    Wait { ms: u8 },
+}
+
+#[derive(Debug, Clone, Serialize, Deserialize)]
+pub struct ExpCase {
+    pub max_provider_keys: u8,
+    pub max_providers_per_key: u8,
+    pub max_provider_addresses: u8,
+    pub ops: Vec<EOp>,
+}
+
+fn exp_strategy() -> impl Strategy<Value = ExpCase> {
+    let op = prop_oneof![
+        6 => (0u8..4, 0u8..5, 0u8..3).prop_map(|(key, provider, addrs)| EOp::Put { key, provider, addrs }),
+        1 => (0u8..4).prop_map(|key| EOp::Get { key }),
+        3 => prop_oneof![Just(60u8), Just(100), Just(170)].prop_map(|ms| EOp::Wait { ms }),
+    ];
+    (1u8..4, prop_oneof![Just(1u8), Just(2), Just(5)], 0u8..3, prop::collection::vec(op, 3..14)).prop_map(|(max_provider_keys, max_providers_per_key, max_provider_addresses, ops)| ExpCase {
+        max_provider_keys,
+        max_providers_per_key,
+        max_provider_addresses,
+        ops,
+    })
+}
+
+fn run_exp(c: &ExpCase) -> CaseResult {
+    let local = peer_from_seed(0xC17);
+    let peers: Vec<PeerId> = (0..5).map(|i| peer_from_seed(0xC17_00 + i as u64 + 1)).collect();
+    let ttl = Duration::from_millis(EXP_TTL_MS);
+    let cfg = MemoryStoreConfig {
+        max_records: 8,
+        max_record_size_bytes: 64,
+        max_provider_keys: c.max_provider_keys as usize,
+        max_provider_addresses: c.max_provider_addresses as usize,
+        max_providers_per_key: c.max_providers_per_key as usize,
+        provider_refresh_interval: Duration::from_secs(22 * 3600),
+        provider_ttl: ttl,
+    };
+    let (max_pkeys, max_ppk, max_paddr) = (cfg.max_provider_keys, cfg.max_providers_per_key, cfg.max_provider_addresses);
+    let mut store = MemoryStore::with_config(local, cfg);
+    // latest accepted announcement per (key, provider): the moments just before and just after the call
+    let mut accepted: BTreeMap<(u8, u8), (Instant, Instant)> = BTreeMap::new();
+    let mut announced: BTreeMap<u8, BTreeSet<u8>> = BTreeMap::new();
+    let mut waited = false;
+    let mut mixed = false;
+    let mut judge = |store: &mut MemoryStore, accepted: &BTreeMap<(u8, u8), (Instant, Instant)>, announced: &BTreeMap<u8, BTreeSet<u8>>, key: u8, step: usize| -> Result<usize, CaseFail> {
+        let q0 = Instant::now();
+        let got = store.get_providers(&RecordKey::from(key_bytes(key)));
+        let q1 = Instant::now();
+        check_providers(&got, key, max_ppk, max_paddr, step)?;
+        for p in &got {
+            let idx = peers.iter().position(|x| *x == p.peer);
+            let Some(idx) = idx else { fail!("C17/get_providers-returned-a-provider-never-announced", "step {step} key {key}") };
+            let Some((_, after)) = accepted.get(&(key, idx as u8)) else { fail!("C17/get_providers-returned-a-provider-never-announced", "step {step} key {key} provider {idx}") };
+            ensure!(q0 < *after + ttl, "C17/get_providers-returned-expired-provider", "step {step} key {key} provider {idx}: announced {:?} before the query, ttl {:?}", q0 - *after, ttl);
+        }
+        // floor: an accepted provider that is certainly still fresh and cannot have been displaced (the key never saw more
+        // providers than fit) is returned
+        let distinct = announced.get(&key).map(|s| s.len()).unwrap_or(0);
+        if distinct <= max_ppk {
+            for ((k, pr), (before, _)) in accepted.iter() {
+                if *k == key && q1 < *before + ttl {
+                    ensure!(got.iter().any(|p| p.peer == peers[*pr as usize]), "C17/accepted-fresh-provider-not-returned", "step {step} key {key} provider {pr}");
+                }
+            }
+        }
+        Ok(got.len())
+    };
+    for (step, op) in c.ops.iter().enumerate() {
+        match op {
+            EOp::Put { key, provider, addrs } => {
+                let addresses: Vec<Multiaddr> = (0..*addrs).map(|i| addr(*provider, i)).collect();
+                let before = Instant::now();
+                let ret = store.put_provider(RecordKey::from(key_bytes(*key)), ContentProvider { peer: peers[*provider as usize], addresses });
+                let after = Instant::now();
+                announced.entry(*key).or_default().insert(*provider);
+                if ret {
+                    if waited && accepted.iter().any(|((k, pr), (_, a))| k == key && pr != provider && before >= *a + ttl) {
+                        mixed = true;
+                    }
+                    accepted.insert((*key, *provider), (before, after));
+                }
+            }
+            EOp::Get { key } => {
+                judge(&mut store, &accepted, &announced, *key, step)?;
+            }
+            EOp::Wait { ms } => {
+                std::thread::sleep(Duration::from_millis(*ms as u64));
+                waited = true;
+            }
+        }
+    }
+    // final scan: every key; the keys that still have providers are keys the store holds
+    let mut held = 0usize;
+    for key in 0u8..4 {
+        if judge(&mut store, &accepted, &announced, key, usize::MAX)? > 0 {
+            held += 1;
+        }
+    }
+    ensure!(held <= max_pkeys, "C17/more-provider-keys-than-configured", "{held} keys with providers, max_provider_keys {max_pkeys}");
+    Ok(CaseOk::trivial().nt(waited).class_if(mixed, "stale-and-fresh-providers-under-one-key").class_if(held == max_pkeys, "key-table-full-at-the-end"))
+}
+
 pub fn run(ctx: &mut Ctx) {
     ctx.rule = "case = store configuration (each bound from {0,1,2,5,large}; providers-per-key >= 1; provider ttl 0 or 1 h) + history of \
         put/get/put_provider/get_providers/put_local_provider/remove_local_provider over 6 colliding keys and 10 providers, record expiry in \
         {none, 1 h ago, +1 h, +2 h}. Non-trivial = the history hits a bound (size, record count, provider keys, providers per key) or replaces/updates an \
-        existing entry; distinct by case hash."
+        existing entry; distinct by case hash. (provider-expiry) provider ttl 150 ms in real time, put_provider / get_providers / wait 60..170 ms \
+        over 4 keys and 5 providers, key bound 1..3, per-key bound 1/2/5: no provider is returned whose latest accepted announcement certainly lies a ttl back, an accepted and \
+        certainly fresh provider that cannot have been displaced is returned, per-key bound / order / address cap hold, and the keys that still have providers at the end are \
+        at most the key bound; non-trivial = the history waits."
         .into();
     ctx.assumptions = vec![
+        "provider-expiry: the announcement instant lies between the clock readings taken around the call; outcomes are judged only where both readings agree".into(),
         "expiry instants are at least 5 s (normally 1 h) away from now, so the real clock cannot flip an outcome".into(),
         "outcomes the statement leaves open (value size == limit; new key when the store is full of expired-unpruned records) are accepted either way".into(),
         "remove_local_provider after the local provider was displaced/expired reaches a debug assertion outside this statement; steered away from and counted as excluded".into(),
@@ -429,4 +546,5 @@ pub fn run(ctx: &mut Ctx) {
     let t = ctx.tier;
     ctx.campaign("history", CampaignCfg::new(t.pick(40_000, 7_500_000)).shards(t.pick(8, 16)), || strategy(60), run_case);
     ctx.campaign("long-history", CampaignCfg::new(t.pick(2_000, 300_000)).shards(t.pick(8, 16)), || strategy(400), run_case);
+    ctx.campaign("provider-expiry", CampaignCfg::new(t.pick(1_600, 40_000)).shards(48).shrink_iters(40), exp_strategy, run_exp);
 }
